@@ -22,7 +22,10 @@ TRUSTED = ["Triangle (meshpy), qhull (ConvexHull), shapely polygonize: unverifie
            "site is the convex hull of the incident circumcentres"]
 ASSUMPTIONS = ["tiling, orientation, Euler characteristic, boundary sites on the outlines, cell areas = clipped Voronoi areas, dual lengths on real meshes and the terminal "
                "length tolerance are decided only on the bounded family of generated geometries (never counted as proved)",
-               "get_edges / find_boundary_indices (np.sort / np.unique) and get_dual_edge_lengths (dict-based adjacency) are exercised only by the bounded run"]
+               "get_edges / Mesh.find_boundary_indices / make_adj_directed_tri_indices / get_dual_edge_lengths are under contract (checks/mesh_common.py) relative to the "
+               "assumed contracts of np.sort (two columns), np.unique, scipy.sparse csc_array / find; a consistently oriented triangulation (no directed side twice) and "
+               "'every edge is a side of one or two triangles' are preconditions; compute_voronoi_polygon_areas (qhull, angle sort) and get_voronoi_polygon_indices are "
+               "exercised only by the bounded run"]
 EXPLANATION = ("generic-triangle / generic-edge obligations on the real Python kernels (circumcentre, areas, edge geometry, terminal length) + bounded native postconditions of "
                "the real mesher (the part of the property that depends on Triangle/qhull cannot be brought under contract)")
 U_ = "tdgl.finite_volume.util"
@@ -391,6 +394,11 @@ def run_native_quick(mutate=None):
     return dict(obls=obls, paths=n, sources=[], consistent=True)
 
 
+def _mc():
+    from checks import mesh_common
+    return mesh_common
+
+
 def units():
     return [Unit("generate_voronoi_vertices / triangle_areas", U_ + ":generate_voronoi_vertices, triangle_areas", run_kernels, props=["C07"], timeout=300),
             Unit("EdgeMesh.from_mesh", E_ + ":EdgeMesh.from_mesh", run_edge_geometry, props=["C07"], timeout=300),
@@ -398,6 +406,10 @@ def units():
             Unit("generate_mesh[wrapper around Triangle]", G_ + ":generate_mesh", run_mesher_wrapper, props=["C07"], timeout=300),
             Unit("Device.terminal_info", DV_ + ":Device.terminal_info", _terminal_info, props=["C07", "C06"], timeout=300),
             Unit("Device.translate[mesh]", DV_ + ":Device.translate", run_device_translate, props=["C07"], timeout=300),
+            Unit("get_edges", U_ + ":get_edges", lambda m=None: _mc().run_get_edges(m), props=["C07", "C09"], timeout=300),
+            Unit("Mesh.find_boundary_indices", "tdgl.finite_volume.mesh:Mesh.find_boundary_indices", lambda m=None: _mc().run_boundary_indices(m), props=["C07"], timeout=300),
+            Unit("make_adj_directed_tri_indices", U_ + ":make_adj_directed_tri_indices", lambda m=None: _mc().run_adjacency(m), props=["C07"], timeout=300),
+            Unit("get_dual_edge_lengths", U_ + ":get_dual_edge_lengths", lambda m=None: _mc().run_dual_edge_lengths(m), props=["C07"], timeout=300),
             Unit("make_mesh postconditions [bounded]", "tdgl.device.device:Device.make_mesh (Triangle, qhull)", run_native_quick, props=["C07"], timeout=600, kind="bounded")]
 
 
@@ -583,7 +595,9 @@ def native(seed=0, reduced=False):
                 if abs(ti.length - covered) > 2 * lmax + 1e-9:
                     bad.append(dict(case, what="terminal length differs from the covered boundary length by more than one edge per end", terminal=ti.name, length=float(ti.length), covered=float(covered)))
     logging.disable(logging.NOTSET)
-    return bad, n
+    # the integer / adjacency functions against brute-force definitions (bounded oracle of the contracts in checks/mesh_common.py)
+    b2, n2 = _mc().native(seed)
+    return bad + b2, n + n2
 
 
 def replay_scope(unit, obl):
@@ -598,6 +612,10 @@ def replay(unit, obl):
         r = c06.replay_terminal_info(obl)
         if r.get("confirmed"):
             return r
+    if unit in ("get_edges", "Mesh.find_boundary_indices", "make_adj_directed_tri_indices", "get_dual_edge_lengths"):
+        bad, n = _mc().native(0)
+        if bad:
+            return dict(confirmed=True, failing_input=bad[0], n_failing=len(bad), evaluations=n, tdgl_file=tdgl.__file__)
     bad, n = native(0, reduced=False)
     if bad:
         return dict(confirmed=True, failing_input=bad[0], n_failing=len(bad), evaluations=n, tdgl_file=tdgl.__file__)
@@ -623,7 +641,7 @@ MUTANTS = [
     dict(name="circumcentre not shifted back", edits=[(U_, "return np.array([Ux, Uy]).T + A", "return np.array([Ux, Uy]).T")]),
     dict(name="triangle area without the factor 1/2", edits=[(U_, "    return a * 0.5\n", "    return a\n")]),
     dict(name="edge centres from the first site only", edits=[(E_, "edge_centers = edge_coords.mean(axis=1)", "edge_centers = edge_coords[:, 0]")]),
-]
+] + __import__("checks.mesh_common", fromlist=["MUTANTS"]).MUTANTS
 
 
 def thorough(seed=0):
